@@ -4,7 +4,7 @@
    tree, [pre_fix] the tree before the fix commits listed in known_findings.json. *)
 From Coq Require Import ZArith List Bool String.
 From Common Require Import Str.
-From Rpc Require Import Json JsonRpc Proofs_JsonRpc.
+From Rpc Require Import Json JsonRpc Inspector Proofs_JsonRpc Proofs_Inspector.
 Import ListNotations.
 Open Scope Z_scope.
 
@@ -173,6 +173,28 @@ Theorem C07_rejected_invokes_nothing : forall pok ms call v l j rq,
   snd (handle_single v pok ms call l j) = l.
 Proof. exact not_found_invokes_nothing. Qed.
 Print Assumptions C07_rejected_invokes_nothing.
+
+(* the inspector (core.describe): exactly the mounted functions and the public routines of the
+   mounted classes are described, never with a "self" parameter, and whatever is described is
+   callable - as a public entry - through a wrapper that mounts instances under the same names *)
+Theorem C07_describe_only_public_api : forall t d k, describe t = Some d -> (In k (map fst d) <-> described t k).
+Proof. exact describe_keys_lemma. Qed.
+Print Assumptions C07_describe_only_public_api.
+
+Theorem C07_describe_refuses_empty_mount : forall t, has_key [] t = true -> describe t = None.
+Proof. exact describe_empty_mount. Qed.
+Print Assumptions C07_describe_refuses_empty_mount.
+
+Theorem C07_describe_no_self_parameter : forall s,
+  Forall (fun p => p_varargs p = true \/ p_kwargs p = true \/ str_eqb (p_name p) s_self = false) (describe_params s).
+Proof. exact describe_params_no_self. Qed.
+Print Assumptions C07_describe_no_self_parameter.
+
+Theorem C07_described_is_callable : forall ms t d k,
+  instantiates ms t -> member_names_plain t -> describe t = Some d -> In k (map fst d) ->
+  exists e, get_method ms k = TCall e /\ public_entry_b ms e = true.
+Proof. exact described_resolves_lemma. Qed.
+Print Assumptions C07_described_is_callable.
 
 (* conformance to the JSON-RPC 2.0 response grammar: full statement refuted by a
    non-finite float id (open finding), proved for inputs whose float ids are finite *)
